@@ -196,7 +196,10 @@ Fixpoint dst (fuel : nat) (dep : N) (ty : sty) (cur : sval) (id : N) : dec sval 
           if id =? idEnd then Fail eEND
           else
             let c := match cur with YPtr (Some c) => c | _ => zero t end in
-            v <- dst f dep t c id ;; Ret (YPtr (Some v))
+            match t with
+            | SRaw => r <- dec_raw fuel id ;; Ret (YPtr (Some (YRaw (fst r) (snd r))))   (* *RawMessage is an Unmarshaler *)
+            | _ => v <- dst f dep t c id ;; Ret (YPtr (Some v))
+            end
       | SList (SB e) => x <- dty fuel dep (GSl e) id ;; Ret (YList (match x with XSlice l => map YB l | _ => [] end))
       | SList t =>
           if id =? idList then
@@ -213,29 +216,12 @@ Fixpoint dst (fuel : nat) (dep : N) (ty : sty) (cur : sval) (id : N) : dec sval 
             if (n <? 0)%Z then Fail eNeg
             else if (Z.of_N (lenN c) <? n)%Z then Fail eType                 (* array shorter than the list *)
             else l <- arr_loop f (Z.to_N n) (dty f (dep - 1) t et) [] c ;; Ret (YArr l)
-          else if id =? idByteArray then                                       (* since fix 862b2b8 *)
-            n <- rd_i32 ;;
-            if (n <? 0)%Z then Fail eNeg
-            else ReadFull (Z.to_N n) (fun bs =>
-              if negb (is_byteish t) then Fail eType
-              else if negb (Z.of_N (lenN c) =? n)%Z then Fail eType            (* "length not match" *)
-              else Ret (YArr (map (byte_elem_of t) bs)))
+          else if id =? idByteArray then        (* the three typed-array cases: text generated by tools/gotrans/c03.go gen_st_array_bytes, _int, _long *)
+            n <- rd_i32 ;; if (n <? 0)%Z then Fail eNeg else ReadFull (Z.to_N n) (fun bs => match t with | GBool => if negb (Z.of_N (lenN c) =? n)%Z then Fail eType else Ret (YArr (map (fun b => XBool (negb (b =? 0))) bs)) | GI8 => if negb (Z.of_N (lenN c) =? n)%Z then Fail eType else Ret (YArr (map (fun b => XInt (sx8 b)) bs)) | GU8 => if negb (Z.of_N (lenN c) =? n)%Z then Fail eType else Ret (YArr (map (fun b => XInt (Z.of_N b)) bs)) | _ => Fail eType end)
           else if id =? idIntArray then
-            n <- rd_i32 ;;
-            if (n <? 0)%Z then Fail eNeg
-            else if negb (Z.of_N (lenN c) =? n)%Z then Fail eType            (* "length not match" *)
-            else if negb (is_i32ish t) then Fail eType
-            else l <- rep f (Z.to_N n) rd_i32 [] ;;
-                 Ret (YArr (map (fun v => XInt (match t with GU32 => Z.of_N (u32 v) | _ => v end)) l))
-          else if id =? idLongArray then                                       (* since fix 13da9e2 *)
-            n <- rd_i32 ;;
-            if (n <? 0)%Z then Fail eNeg
-            else if negb (Z.of_N (lenN c) =? n)%Z then Fail eType
-            else match t with
-                 | GI64 => l <- rep f (Z.to_N n) rd_i64 [] ;; Ret (YArr (map XInt l))
-                 | GU64 => l <- rep f (Z.to_N n) rd_i64 [] ;; Ret (YArr (map (fun v => XInt (Z.of_N (u64 v))) l))
-                 | _ => Fail eType
-                 end
+            n <- rd_i32 ;; if (n <? 0)%Z then Fail eNeg else if negb (Z.of_N (lenN c) =? n)%Z then Fail eType else match t with | GInt => l <- rep f (Z.to_N n) rd_i32 [] ;; Ret (YArr (map XInt l)) | GI32 => l <- rep f (Z.to_N n) rd_i32 [] ;; Ret (YArr (map XInt l)) | GU32 => l <- rep f (Z.to_N n) rd_i32 [] ;; Ret (YArr (map (fun v => XInt (Z.of_N (u32 v))) l)) | _ => Fail eType end
+          else if id =? idLongArray then
+            n <- rd_i32 ;; if (n <? 0)%Z then Fail eNeg else if negb (Z.of_N (lenN c) =? n)%Z then Fail eType else match t with | GI64 => l <- rep f (Z.to_N n) rd_i64 [] ;; Ret (YArr (map XInt l)) | GU64 => l <- rep f (Z.to_N n) rd_i64 [] ;; Ret (YArr (map (fun v => XInt (Z.of_N (u64 v))) l)) | _ => Fail eType end
           else misfit id
       | SStruct fs =>
           if id =? idCompound then
